@@ -8,6 +8,15 @@ Array values are abstracted to their size and the sum of their entries.  Extern 
   np.repeat(np.arange(n), integ) has integ.sum() entries, all in [0, n);  shuffle permutes in place;
   np.random.choice(n, k, True, p) returns k indices.
 Postcondition (from the property): the column has exactly `total` rows.
+
+ONE-CELL VIEW (added): next to size and sum every array carries its value at ONE arbitrary, fixed cell i (a symbolic index, so
+what is proved holds for every cell).  Extern contracts at that cell: scaling multiplies it; np.modf splits it into an integer
+part >= 0 and a fraction in [0, 1); np.random.choice never returns an index whose probability is 0 (numpy draws from the support
+of p; without replacement it raises when the support is too small); `integ[idx] += 1` with pairwise distinct idx adds 1 at the
+cell iff the cell is among idx; np.repeat(np.arange(n), integ) holds value i exactly integ[i] times.
+Postconditions (from the property), for both methods: no row falls in a cell of zero mass; for method 'round': the number of rows
+in the cell differs from its expected count  counts[i] * total / counts.sum()  by less than 1 - a rounding error that does not
+grow with the number of rows.
 """
 import ast
 import z3
@@ -18,11 +27,18 @@ QUAL = 'GraphicalModel.synthetic_data.synthetic_col'
 R, I, V = E.R, E.I, E.V
 
 
-def arr(eng, name, s, n, integer=False, cnt=None):
-    return E.Obj(eng.fresh(name, V), cls='ndarray', ghost={'sum': s, 'size': n, 'int': integer, 'count': cnt})
+def arr(eng, name, s, n, integer=False, cnt=None, cell=None):
+    return E.Obj(eng.fresh(name, V), cls='ndarray', ghost={'sum': s, 'size': n, 'int': integer, 'count': cnt, 'cell': cell})
+
+
+CELL_IN, SUM_IN = z3.Real('counts_at_cell_i'), z3.Real('sum_counts')
 
 
 class SynthHooks:
+    def init(self, eng, st):
+        # counts >= 0 entrywise (a table of expected counts): the cell is one nonnegative summand of the sum (precondition)
+        st.assume(z3.And(CELL_IN >= 0, CELL_IN <= SUM_IN))
+
     def attr(self, eng, st, o, name, node):
         if isinstance(o, E.Obj) and o.cls == 'ndarray' and name == 'size':
             return E.Num(o.g('size'))
@@ -38,21 +54,42 @@ class SynthHooks:
                 return recv
         if recv is None and name == 'veclen' and len(args) == 1:
             return E.Num(args[0].g('len'))
+        if recv is None and name == 'rows_in_cell' and len(args) == 1:          # spec: how often the result holds the value i
+            return E.Num(args[0].g('cellcount'))
+        if recv is None and name == 'cell_in' and not args:                      # spec: counts[i] on entry
+            return E.Num(CELL_IN, npy=True)
+        if recv is None and name == 'sum_in' and not args:                       # spec: counts.sum() on entry
+            return E.Num(SUM_IN, npy=True)
         if name == 'np.modf' and args and isinstance(args[0], E.Obj):
             a = args[0]
             sf, si = eng.fresh('sum_frac', R), eng.fresh('sum_integ', I)
             n = a.g('size')
             st.assume(z3.And(sf + z3.ToReal(si) == a.g('sum'), sf >= 0, si >= 0, z3.Implies(n > 0, sf < z3.ToReal(n)), z3.Implies(n <= 0, sf == 0)))
-            return E.Tup([arr(eng, 'frac', sf, n), arr(eng, 'integ', z3.ToReal(si), n, integer=True)])
+            fc = ic = None
+            if a.g('cell') is not None:
+                fc, ici = eng.fresh('frac_i', R), eng.fresh('integ_i', I)
+                ic = z3.ToReal(ici)
+                # entrywise split of a nonnegative number; the cell is one of the summands of the two sums
+                st.assume(z3.And(fc + ic == a.g('cell'), fc >= 0, fc < 1, z3.Implies(a.g('cell') >= 0, ici >= 0), fc <= sf, z3.Implies(a.g('cell') >= 0, ic <= z3.ToReal(si))))
+            return E.Tup([arr(eng, 'frac', sf, n, cell=fc), arr(eng, 'integ', z3.ToReal(si), n, integer=True, cell=ic)])
         if name == 'np.random.choice' and len(args) == 4:
             n, k, replace = args[0], args[1], args[2]
             st.assume(k.real() >= 0)                      # numpy raises ValueError for a negative sample size
-            o = E.Obj(eng.fresh('idx', V), cls='ndarray', ghost={'len': k.real(), 'distinct': z3.Not(eng.truth(st, replace)), 'size': n.t})
+            p = args[3]
+            pc = p.g('cell') if isinstance(p, E.Obj) else None
+            sel = eng.fresh('cell_i_drawn', z3.BoolSort())           # some returned index equals i
+            times = eng.fresh('times_i_drawn', I)                    # how many returned indices equal i
+            st.assume(z3.And(times >= 0, (times > 0) == sel, times <= z3.ToInt(k.real()) if k.is_int else times >= 0))
+            if pc is not None:
+                st.assume(z3.Implies(sel, pc > 0))                   # numpy never draws an index of probability 0
+            # (a probability vector the one-cell view knows nothing about leaves the draw unconstrained)
+            o = E.Obj(eng.fresh('idx', V), cls='ndarray', ghost={'len': k.real(), 'distinct': z3.Not(eng.truth(st, replace)), 'size': n.t,
+                                                                'sel': sel, 'cellcount': z3.ToReal(times)})
             return o
         if name == 'np.arange' and len(args) == 1:
             return E.Obj(eng.fresh('arange', V), cls='arange', ghost={'n': args[0].t})
         if name == 'np.repeat' and len(args) == 2 and isinstance(args[0], E.Obj) and args[0].cls == 'arange':
-            return E.Obj(eng.fresh('vals', V), cls='ndarray', ghost={'len': args[1].g('sum'), 'size': args[0].g('n')})
+            return E.Obj(eng.fresh('vals', V), cls='ndarray', ghost={'len': args[1].g('sum'), 'size': args[0].g('n'), 'cellcount': args[1].g('cell')})
         if name == 'np.random.shuffle':
             return E.Const(None)
         return NotImplemented
@@ -60,10 +97,13 @@ class SynthHooks:
     def binop(self, eng, st, op, l, r, node):
         for a, b in ((l, r), (r, l)):
             if isinstance(a, E.Obj) and a.cls == 'ndarray' and a.g('sum') is not None and isinstance(b, E.Num):
+                c = a.g('cell')
                 if isinstance(op, ast.Mult):
-                    return arr(eng, 'scaled', a.g('sum') * b.real(), a.g('size'))
+                    return arr(eng, 'scaled', a.g('sum') * b.real(), a.g('size'), cell=None if c is None else c * b.real())
                 if isinstance(op, ast.Div) and a is l:
-                    return arr(eng, 'scaled', a.g('sum') / b.real(), a.g('size'))
+                    return arr(eng, 'scaled', a.g('sum') / b.real(), a.g('size'), cell=None if c is None else c / b.real())
+                if isinstance(op, ast.Add):
+                    return arr(eng, 'shifted', a.g('sum') + z3.ToReal(a.g('size')) * b.real(), a.g('size'), cell=None if c is None else c + b.real())
         return NotImplemented
 
     def setitem(self, eng, st, tgt, o, k, val, node):
@@ -73,7 +113,11 @@ class SynthHooks:
                 and isinstance(node.op, ast.Add) and isinstance(node.value, ast.Constant) and isinstance(node.value.value, int):
             inc = node.value.value
             eng.oblige(st, 'increment/indices-pairwise-distinct@L%d' % node.lineno, k.g('distinct'), kind='numpy-precondition')
-            new = arr(eng, 'integ_inc', o.g('sum') + inc * k.g('len'), o.g('size'), integer=True)
+            c = o.g('cell')
+            if c is not None:
+                # distinct indices (obliged above): the cell is incremented once iff it is among them
+                c = eng.fresh('integ_i_unknown', R) if k.g('sel') is None else c + z3.If(k.g('sel'), z3.RealVal(inc), z3.RealVal(0))
+            new = arr(eng, 'integ_inc', o.g('sum') + inc * k.g('len'), o.g('size'), integer=True, cell=c)
             eng.rebind(st, tgt.value, new)
             return True
         return NotImplemented
@@ -85,8 +129,8 @@ class SynthHooks:
 
 
 def _counts(eng, name):
-    s, n = z3.Real('sum_counts'), z3.Int('n_cells')
-    return arr(eng, name, s, n)
+    s, n = SUM_IN, z3.Int('n_cells')
+    return arr(eng, name, s, n, cell=CELL_IN)
 
 
 def contract(method):
@@ -94,7 +138,9 @@ def contract(method):
         params=dict(counts=_counts, total='int'),
         requires=['total >= 0', 'counts.sum() > 0', 'counts.size >= 1'],
         division='abort',
-        ensures={'exactly-the-requested-number-of-rows': 'veclen(result) == total'},
+        ensures=dict({'exactly-the-requested-number-of-rows': 'veclen(result) == total',
+                      'no-row-in-a-cell-of-zero-mass': 'implies(cell_in() == 0, rows_in_cell(result) == 0)'},
+                     **({'rounding-error-per-cell-below-one': 'abs(rows_in_cell(result) - cell_in() * total / sum_in()) < 1'} if method == 'round' else {})),
         module_env={'method': E.Const(method)},
         setitem_counts=True,
     )
